@@ -66,7 +66,7 @@ Definition sort (rs : list range) : list range := fold_right insert [] rs.
 (* ---- a list used as a Go slice ---- *)
 Definition dflt : range := mkRange 0 0.
 (* rs[k]; every index used by Normalize is within bounds (prev < i < len), the
-   default is never returned (RangesProofs.loop_inv) *)
+   default is never returned; RangesProofs.loop_norm_go gives the slice layout at every iteration *)
 Definition get (a : list range) (k : nat) : range := nth k a dflt.
 (* rs[k] = v *)
 Fixpoint upd (a : list range) (k : nat) (v : range) : list range :=
